@@ -449,7 +449,17 @@ fn build_matcher_tree(
     // multiple-character flags don't start with a double dash
     let mut i = arg_index;
     let mut invert_next_matcher = false;
+    // Whether the previous word was an operator that still needs its operand.
+    let mut operand_expected = false;
     while i < args.len() {
+        let is_binary_operator = matches!(args[i], "-a" | "-and" | "-o" | "-or" | ",");
+        if is_binary_operator && operand_expected {
+            return Err(From::from(format!(
+                "invalid expression; you have used a binary operator '{}' with nothing before it.",
+                args[i]
+            )));
+        }
+        operand_expected = is_binary_operator || matches!(args[i], "!" | "-not");
         let possible_submatcher = match args[i] {
             "-print" => Some(Printer::new(PrintDelimiter::Newline, None).into_box()),
             "-print0" => Some(Printer::new(PrintDelimiter::Null, None).into_box()),
